@@ -2,7 +2,7 @@
 import re
 from .mir import callee_matches
 from .expr import Ex, norm, show, walk
-from .intervals import Intervals, ty_range, bits_of, dominating_facts, TOP
+from .intervals import Intervals, ty_range, bits_of, dominating_facts, TOP, argtys_of
 
 # callees that panic by contract (regex on declared callee / resolved instance)
 PANIC_CALLS = [
@@ -72,7 +72,10 @@ def leaf_sig(e, maxd=3):
         elif k == "arg":
             toks.add(str(x[2] or "arg%d" % x[1]))
         elif k == "named":
-            toks.add(x[1].split("::")[-1])
+            if isinstance(x[2], int):
+                lits.add(str(x[2]))
+            else:
+                toks.add(x[1].split("::")[-1])
         elif k == "const" and isinstance(x[2], int):
             lits.add(str(x[2]))
         elif k == "call":
@@ -203,6 +206,25 @@ def const_return_summaries(facts):
                     okf = False
         if okf and vals and f.locals[0]["ty"] in ("usize", "u8", "u16", "u32", "u64", "i32", "i64"):
             out["^" + re.escape(f.path) + "$"] = (min(vals), max(vals))
+        # Ok payload of functions returning Result<integer, _>
+        m = re.match(r"^std::result::Result<(u8|u16|u32|u64|usize), ", f.locals[0]["ty"])
+        if m:
+            rs = []
+            good = True
+            for b in f.exits():
+                e = norm(ex.local(0, (b, None)))
+                for p in (e[1] if e[0] == "phi" else (e,)):
+                    if p[0] == "agg" and p[1] == "adt:Ok":
+                        r = Intervals(out).range_of(p[3][0][1], m.group(1))
+                        if r == ty_range(m.group(1)):
+                            good = False
+                        rs.append(r)
+                    elif p[0] in ("errprop",) or (p[0] == "agg" and p[1] == "adt:Err"):
+                        continue
+                    else:
+                        good = False
+            if good and rs:
+                out["ok:^" + re.escape(f.path) + "$"] = (min(r[0] for r in rs), max(r[1] for r in rs))
     # second pass lets summaries use each other (salt_length uses key_length)
     return out
 
@@ -213,8 +235,8 @@ def discharge(facts, site, summaries):
     t = site.term
     ex = Ex(fn)
     gfacts = [f for f in dominating_facts(fn, ex, site.bb) if f[0] != "truth"]
-    iv = Intervals(summaries, gfacts)
-    iv0 = Intervals(summaries, [])
+    iv = Intervals(summaries, gfacts, argtys_of(fn))
+    iv0 = Intervals(summaries, [], argtys_of(fn))
 
     def opty(i):
         o = t["ops"][i]
@@ -240,6 +262,12 @@ def discharge(facts, site, summaries):
             tlo, thi = ty_range(ty)
             if r is not None and tlo <= r[0] and r[1] <= thi and (tlo, thi) != TOP:
                 return cls, "%s of [%d,%d] and [%d,%d] stays within %s" % (op, a[0], a[1], b[0], b[1], ty)
+        # writer side: sink offset + bounded value (offsets reported by the caller's own Seek are < 2^63)
+        if op == "Add" and re.match(r"^<?write::", fn.path):
+            a_, b_ = site.ops[0], site.ops[1]
+            ra, rb = iv.range_of(a_, ty), iv.range_of(b_, ty)
+            if (_is_offset(a_) and (rb[1] <= 1 << 40 or _is_offset(b_))) or (_is_offset(b_) and ra[1] <= 1 << 40):
+                return "offset", "sink offset plus a bounded value (file offsets are < 2^63: SeekFrom is i64 based)"
         # relational guard: a - b with a >= b established on the taken edge
         if op == "Sub":
             if _implies_ge(gfacts, site.ops[0], site.ops[1], iv, ty):
@@ -337,6 +365,25 @@ def _discharge_index(base, rng, iv):
         if re_[1] <= ln:
             return "interval", "end bound <= %d <= fixed length %d" % (re_[1], ln)
     return None, ""
+
+
+OFFSET_FIELDS = ("header_start", "data_start", "central_header_start", "start")
+
+
+def _is_offset(e):
+    while e[0] == "cast":
+        e = e[1]
+    if e[0] == "field" and e[2] in OFFSET_FIELDS:
+        return True
+    if e[0] == "ok" and e[1][0] == "call" and re.search(r"Seek::(stream_position|seek)$", e[1][1]):
+        return True
+    if e[0] == "call" and re.search(r"AtomicU64::(get_mut|load)$", e[1]):
+        return True
+    if e[0] == "bin" and e[1] in ("Add", "Sub"):
+        return _is_offset(e[2]) or _is_offset(e[3])
+    if e[0] == "phi":
+        return all(_is_offset(a) for a in e[1])
+    return False
 
 
 def _implies_ge(gfacts, a, b, iv, ty):
